@@ -27,21 +27,28 @@ def run_property(prop, tier, repo, evidence=True, only_rule=None, quiet=False, b
     if only_rule:
         rules = [r for r in rules if r.__name__ == only_rule or getattr(r, 'rule_name', '') == only_rule]
     results = []
+    analysis_errors = []
     for rule in rules:
-        res = rule(P)
+        try:
+            res = rule(P)
+        except AnalysisError as exc:
+            # a rule that cannot read the code gives no verdict; the others still do
+            analysis_errors.append(f'{getattr(rule, "__name__", rule)}: {exc}')
+            continue
         results.extend(res if isinstance(res, list) else [res])
 
     floors = report.load_floors().get(prop, {})
     if not only_rule:
         seen = {}
         for r in results:
-            seen[r.rule] = seen.get(r.rule, 0) + len(r.instances) + len(r.findings)
+            # a rule that reports something is not blind: floors guard the silent case
+            seen[r.rule] = seen.get(r.rule, 0) + len(r.instances) + (10 ** 6 if r.findings else 0)
         for rule_name, floor in floors.items():
             if rule_name.startswith('thorough:'):
                 if tier != 'thorough':
                     continue
                 rule_name = rule_name.split(':', 1)[1]
-            if seen.get(rule_name, 0) < floor:
+            if seen.get(rule_name, 0) < floor and not analysis_errors:
                 raise AnalysisError(
                     f'rule {rule_name} matched {seen.get(rule_name, 0)} instances, fewer than the floor '
                     f'{floor} confirmed by hand: the rule has gone (partly) blind')
@@ -76,7 +83,12 @@ def run_property(prop, tier, repo, evidence=True, only_rule=None, quiet=False, b
             path = report.write_violation(prop, nviol, f, repo) if evidence else '-'
             print(f'  {f.where} {f.rule} {f.construct} [{f.detail}]: {f.message}' + (f' (path: {f.path})' if f.path else ''))
             print(f'VIOLATION property={prop} replay={path}')
+    for msg in analysis_errors:
+        print(f'ANALYSIS-ERROR {msg}')
     wall = time.time() - t0
+    if analysis_errors and not nviol:
+        # no verdict: do not leave an evidence file that says "held"
+        return 2
     if evidence:
         report.write_evidence(prop, tier, spec['level'], results, stats, spec['explanation'],
                               spec['assumptions'], wall, nviol, known_printed, extra=extra, repo=repo)
